@@ -291,9 +291,53 @@ def long_run_task(tier, seed):
                 path = write_replay(PID, {"key": key, "info": {"kind": "py-long"}, "inputs": {"t0": t0, "t1": t1, "max_dt": md}, "problems": probs[:5], "n_steps": sum(len(l) for l in legs)})
                 part.violation(key, f"Python runtime: t0={t0} -> t1={t1} max_dt={md}: {probs[0]}", path)
                 return part.d
+    # seeded sweep of ordinary moves in doubles (exact multiples of the step included): what is equal over the reals
+    # (a remainder taken with fmod, a step count taken with int()) need not be equal in doubles
+    mds = [0.1, 0.05, 0.01, 1.0 / 3.0, 1.0 / 30.0, 0.25, 3.0 / 7.0]
+    n_moves = 1500 if tier == "quick" else 6000
+    bad_py = None
+    for i in range(n_moves):
+        md = mds[i % len(mds)]
+        t0 = rng.choice([0.0, 10.0, -3.5, 100.0, rng.randint(-400, 400) / 8.0])
+        if i % 3 == 0:
+            delta = rng.choice([-1, 1]) * rng.randint(1, 90) * md  # an exact multiple of the step (as a product in doubles)
+        elif i % 3 == 1:
+            delta = rng.choice([-1, 1]) * rng.randint(1, 200) / 20.0  # decimal offsets: 0.05 .. 10.0
+        else:
+            delta = rng.uniform(-9.0, 9.0)
+        t1 = t0 + delta
+        legs = float_steps(t0, t1, md)
+        probs = violates_legs(t0, t1, md, (), legs)
+        if probs:
+            bad_py = (t0, t1, md, probs)
+            break
+    part.record(Q("sat" if bad_py else "unsat", None, 0.0, ""), f"sweep/py: {n_moves} seeded moves (exact multiples, decimal offsets, arbitrary), steps 0.1 .. 3/7: direction, length and sum within 1e-9 (concrete replay)")
+    if bad_py:
+        t0, t1, md, probs = bad_py
+        path = write_replay(PID, {"key": "sweep/py", "info": {"kind": "py-long"}, "inputs": {"t0": t0, "t1": t1, "max_dt": md}, "problems": probs[:5]})
+        part.violation("sweep/py", f"Python runtime: t0={t0!r} -> t1={t1!r} max_dt={md!r}: {probs[0]}", path)
+        return part.d
     try:
         from . import c10_cpp
     except ImportError:
+        return part.d
+    bad_cpp = None
+    n_cpp = 40 if tier == "quick" else 160
+    for i in range(n_cpp):
+        md = [0.1, 1.0 / 3.0, 1.0 / 30.0, 0.05][i % 4]
+        t0 = rng.choice([0.0, 10.0, -3.5])
+        delta = (rng.choice([-1, 1]) * rng.randint(3, 40) * md) if i % 2 == 0 else rng.choice([-1, 1]) * rng.randint(1, 200) / 20.0
+        t1 = t0 + delta
+        legs = c10_cpp.float_steps_cpp(True, True, md, t0, t1)
+        probs = violates_legs(t0, t1, md, (), legs)
+        if probs:
+            bad_cpp = (t0, t1, md, probs)
+            break
+    part.record(Q("sat" if bad_cpp else "unsat", None, 0.0, ""), f"sweep/cpp: {n_cpp} seeded moves (exact multiples and decimal offsets), steps 0.1, 1/3, 1/30, 0.05 (concrete replay)")
+    if bad_cpp:
+        t0, t1, md, probs = bad_cpp
+        path = write_replay(PID, {"key": "sweep/cpp", "info": {"kind": "cpp-long", "control": True, "cal": True, "max_dt": md}, "inputs": {"t0": t0, "t1": t1}, "problems": probs[:5]})
+        part.violation("sweep/cpp", f"C++ runtime: t0={t0!r} -> t1={t1!r} max_dt={md!r}: {probs[0]}", path)
         return part.d
     for t0, span, md in cases[:3] if tier == "quick" else cases[:6]:
         for sign in (1.0, -1.0):
